@@ -62,6 +62,10 @@ func NewRequestContext(ctx context.Context, req *envoy_auth.CheckRequest) *Reque
 		}
 	}
 
+	// the path is received as sent by the client, that is still encoded
+	rawPath := req.GetAttributes().GetRequest().GetHttp().GetPath()
+	path, _ := url.PathUnescape(rawPath)
+
 	return &RequestContext{
 		ctx:        ctx,
 		ips:        clientIPs,
@@ -70,7 +74,8 @@ func NewRequestContext(ctx context.Context, req *envoy_auth.CheckRequest) *Reque
 		reqURL: &url.URL{
 			Scheme:   req.GetAttributes().GetRequest().GetHttp().GetScheme(),
 			Host:     req.GetAttributes().GetRequest().GetHttp().GetHost(),
-			Path:     req.GetAttributes().GetRequest().GetHttp().GetPath(),
+			Path:     path,
+			RawPath:  rawPath,
 			RawQuery: req.GetAttributes().GetRequest().GetHttp().GetQuery(),
 			Fragment: req.GetAttributes().GetRequest().GetHttp().GetFragment(),
 		},
